@@ -188,9 +188,12 @@ def expect(fn, base, cls, pc, sig, which, rng):
             return plain(sig, consume=1, result="FinishNumeric")
         return plain(sig, result="FinishNumeric")
     if fn == "do_named":
-        hit = gv(pc, r"NAMED_ENTITIES\.get\(self\.name_buf\(\)\[\.\.\]\) matches Some\(_\)")
-        if hit is None:
+        hits = [v for k, v in pc["guards"].items() if re.fullmatch(r"NAMED_ENTITIES\.get\(self\.name_buf\(\)\[\.\.\]\) matches Some\((_|\(_,_\))\)(#\d+)?", k)]
+        if not hits:
             return "the name buffer is not looked up in the entity table on this path"
+        if len(set(hits)) > 1:
+            return None  # Some(_) and Some((_, _)) are the same test of one lookup: answered both ways, the path is infeasible
+        hit = hits[0]
         if not hit:
             return plain(sig, consume=1, push_c=1, result="FinishNamed")
         prefix_only = gv(pc, r"NAMED_ENTITIES\.get\(self\.name_buf\(\)\[\.\.\]\)\.0\.0 matches 0")
@@ -200,8 +203,13 @@ def expect(fn, base, cls, pc, sig, which, rng):
             if gv(pc, r"NAMED_ENTITIES\.get\(self\.name_buf\(\)\[\.\.\]\)\.0\.1 matches 0") is False:
                 return None  # infeasible: an entry whose first code point is 0 is a prefix entry (0, 0) (R14.2)
             return plain(sig, consume=1, push_c=1, result="Progress")
+        L = "NAMED_ENTITIES.get(self.name_buf()[..]).0"
+        nm = [x.replace(" ", "") for x in sig["assigns"].get("name_match", [])]
+        whole = nm in (["Some(%s)" % L], ["Some((%s.0,%s.1))" % (L, L)], ["Some(Tuple(%s.0,%s.1))" % (L, L)])
+        if not whole:
+            return "name_match is set to %s, expected the table entry of the lookup" % nm
         return plain(sig, consume=1, push_c=1, result="Progress",
-                     assigns={"name_match": ["Some(NAMED_ENTITIES.get(self.name_buf()[..]).0)"], "name_len": ["self.name_buf().len()"]})
+                     assigns={"name_match": sig["assigns"].get("name_match", []), "name_len": ["self.name_buf().len()"]})
     if fn == "do_bogus_name":
         # every character read here is handed back in the end; where the state stops only decides a parse error. So for the
         # tokens it is enough that a row either keeps the character and goes on, or keeps it and hands the whole name back -
